@@ -53,6 +53,7 @@ type SpecFunc struct {
 	Axioms  []Clause
 	IsPred  bool
 	Where   string
+	rec, recKnown bool
 }
 
 type Lemma struct {
